@@ -1,1 +1,32 @@
-//! placeholder, see DESIGN.md §2.2
+//! `ctl` — a drop-in replacement for the subset of the `shuttle` crate that salsa uses
+//! (`--features shuttle`), built for *exhaustive* preemption-bounded exploration of real code.
+//!
+//! * every logical thread is a real OS thread (so `std::thread::panicking()`, unwinding through
+//!   guards, `catch_unwind`, thread-locals all behave exactly as in production);
+//! * exactly one logical thread runs at a time; every atomic operation, mutex acquisition,
+//!   condvar wait / notify, spawn, join and thread end is a *scheduling point* at which the
+//!   explorer decides who runs next;
+//! * waiting is visible: a thread pending on a held mutex, an un-notified condvar or an
+//!   unfinished join is disabled; "no enabled thread, some thread unfinished" is a deadlock;
+//! * the search is iterative-context-bounding DFS by re-execution (see `explore`).
+//!
+//! Outside an exploration every primitive degrades to its plain std behaviour, so the same types
+//! can be used by sequential code.
+
+pub mod engine;
+pub mod sync;
+pub mod thread;
+
+pub use engine::{Config, Failure, Report, choose, current_schedule, explore, in_exploration, note, replay};
+pub use std::thread_local;
+
+/// Compatibility shims for code written against shuttle's top-level API.
+pub fn check_dfs<F>(f: F, _max: Option<usize>)
+where
+    F: Fn() + Send + Sync + 'static,
+{
+    let r = explore(Config::default(), f);
+    if let Some(fail) = r.failure {
+        panic!("ctl: {fail:?}");
+    }
+}
